@@ -105,10 +105,10 @@ func init() {
 		})
 	clusterCheck("C11",
 		func() []Unit {
-			return append([]Unit{{Name: "enum-compaction", Enum: enumC11}}, scUnits(1, "snap3", "snap3-trail1", "snap3-mono", "stale-suffix", "stale-suffix-trail", "member", "snap-member-slowfsm", "autosnap3", "rcl3-snap", "rcl1-many", "rcl1-after", "rcl3-after")...)
+			return append([]Unit{{Name: "enum-compaction", Enum: enumC11}}, scUnits(1, "snap3", "snap3-trail1", "snap3-mono", "stale-suffix", "stale-suffix-trail", "member", "snap-member-slowfsm", "autosnap3", "rcl3-snap", "rcl1-many", "rcl1-after", "rcl3-after", "snap3-dup-is", "snap3-trail1-dup-is")...)
 		},
 		func() []Unit {
-			return append([]Unit{{Name: "enum-compaction", Enum: enumC11}}, scUnits(2, "snap3", "snap3-trail1", "snap3-mono", "stale-suffix", "stale-suffix-trail", "member", "snap-member-slowfsm", "autosnap3", "crash3", "rcl3-snap", "rcl1-many", "rcl1-after", "rcl3-after")...)
+			return append([]Unit{{Name: "enum-compaction", Enum: enumC11}}, scUnits(2, "snap3", "snap3-trail1", "snap3-mono", "stale-suffix", "stale-suffix-trail", "member", "snap-member-slowfsm", "autosnap3", "crash3", "rcl3-snap", "rcl1-many", "rcl1-after", "rcl3-after", "snap3-dup-is", "snap3-trail1-dup-is")...)
 		})
 	timedAssumptions := []string{
 		"timed regime: virtual clock, timers fire strictly in deadline order, thread steps and message delivery take no virtual time",
